@@ -19,7 +19,15 @@ def check(chk, thorough=False):
     chk.run('C11.b', 'R-PAIR', 'an edit of a parsed block payload is followed by invalidating the cached encoded data before the next encode', lambda ob: c11b(tree, ob), floor=1)
     chk.run('C11.c', 'R-ITER+R-FLOW', 'old Previous Node / Age blocks are all removed (loop not invalidated by the removal), exactly one Previous Node naming this node is added, hop count + 1, age = now - creation only when creation time is known', lambda ob: c11c(tree, ob), floor=5)
     chk.run('C11.d', 'R-FLOW', 'new blocks go before the payload with an unused number; the payload block is number 1; duplicates are rejected; removal finds the block whatever its position', lambda ob: c11d(tree, ob), floor=5)
+    chk.run('C11.f', 'sibling', 'what is decoded is re-encoded unchanged: codec agreement, preserved flag bits / EID text / time values, RFC layouts (= C02.a, C02.c, C02.e)', lambda ob: _c02(tree, ob), floor=40)
     chk.run('C11.e', 'R-ORDER', 'CRCs are computed on the bytes actually sent (= C08.a)', lambda ob: c08a(tree, ob), floor=3)
+
+
+def _c02(tree, ob):
+    from .c02 import c02a, c02c, c02e
+    c02a(tree, ob)
+    c02c(tree, ob)
+    c02e(tree, ob)
 
 
 def _primary_aliases(func):
@@ -256,6 +264,16 @@ def c11d(tree, ob):
     idx = [n for n in walk_local(fa.func) if isinstance(n, ast.Assign) and pm('self._block_num[blk_num]', n.targets[0]) is not None]
     if not idx or src(idx[0].value) != 'blk':
         ob.violate(UTIL, fa.qual, 'self._block_num[blk_num] = blk', 'the number index is not updated', fa.func)
+    # a received bundle with two blocks of the same number is refused when it is indexed
+    fl = FuncView(tree, UTIL, 'BundleContainer.reload')
+    stores = [n for n in walk_local(fl.func) if isinstance(n, ast.Assign) and pm('self._block_num[blk_num]', n.targets[0]) is not None]
+    silent = [c for c in calls_in(fl.func) if isinstance(c.func, ast.Attribute) and self_attr(c.func.value) == '_block_num' and c.func.attr in ('setdefault', 'update')]
+    okdup = stores and all(fl.has(s, 'blk_num in self._block_num', False) for s in stores) and \
+        any(fl.has(r, 'blk_num in self._block_num', True) for r in walk_local(fl.func) if isinstance(r, ast.Raise))
+    if silent or not okdup:
+        ob.violate(UTIL, fl.qual, src((silent or stores or [fl.func])[0])[:70], 'a received bundle with duplicate block numbers is indexed without complaint and can be forwarded with the duplicates', (silent or stores or [fl.func])[0])
+    else:
+        ob.site(UTIL, stores[0], 'reload refuses duplicate block numbers')
     ff = FuncView(tree, UTIL, 'BundleContainer._fix_blk_num')
     pay = [n for n in walk_local(ff.func) if isinstance(n, ast.Assign) and src(n.targets[0]) == 'blk_num' and src(n.value) in ('Bundle.BLOCK_NUM_PAYLOAD', '1')]
     gen = [n for n in walk_local(ff.func) if isinstance(n, ast.Assign) and src(n.targets[0]) == 'blk_num' and pm('self.get_block_num()', n.value) is not None]
